@@ -5,6 +5,7 @@ import (
 	"fmt"
 	"sort"
 
+	"github.com/idena-network/idena-go/blockchain/types"
 	"github.com/idena-network/idena-go/common"
 	"github.com/idena-network/idena-go/core/appstate"
 	"github.com/idena-network/idena-go/core/state"
@@ -168,6 +169,83 @@ func DiffLines(a, b []string) []string {
 				x = b[i]
 			}
 			out = append(out, a[i]+"  <>  "+x)
+		}
+	}
+	return out
+}
+
+// CompareVC compares two validator views on every public getter for the given
+// addresses and a few committee draws. It returns the differences.
+func CompareVC(a, b *validators.ValidatorsCache, addrs []common.Address, name func(common.Address) string, seeds []types.Seed) []string {
+	var out []string
+	add := func(f string, args ...interface{}) { out = append(out, fmt.Sprintf(f, args...)) }
+	if a.NetworkSize() != b.NetworkSize() {
+		add("NetworkSize %d vs %d", a.NetworkSize(), b.NetworkSize())
+	}
+	if a.OnlineSize() != b.OnlineSize() {
+		add("OnlineSize %d vs %d", a.OnlineSize(), b.OnlineSize())
+	}
+	if a.ValidatorsSize() != b.ValidatorsSize() {
+		add("ValidatorsSize %d vs %d", a.ValidatorsSize(), b.ValidatorsSize())
+	}
+	if a.ForkCommitteeSize() != b.ForkCommitteeSize() {
+		add("ForkCommitteeSize %d vs %d", a.ForkCommitteeSize(), b.ForkCommitteeSize())
+	}
+	if !a.GetAllOnlineValidators().Equal(b.GetAllOnlineValidators()) {
+		add("GetAllOnlineValidators differ")
+	}
+	for _, x := range addrs {
+		if a.IsValidated(x) != b.IsValidated(x) {
+			add("IsValidated(%s) %v vs %v", name(x), a.IsValidated(x), b.IsValidated(x))
+		}
+		if a.IsOnlineIdentity(x) != b.IsOnlineIdentity(x) {
+			add("IsOnlineIdentity(%s) %v vs %v", name(x), a.IsOnlineIdentity(x), b.IsOnlineIdentity(x))
+		}
+		if a.IsPool(x) != b.IsPool(x) {
+			add("IsPool(%s) %v vs %v", name(x), a.IsPool(x), b.IsPool(x))
+		}
+		if a.IsDiscriminated(x) != b.IsDiscriminated(x) {
+			add("IsDiscriminated(%s) %v vs %v", name(x), a.IsDiscriminated(x), b.IsDiscriminated(x))
+		}
+		if a.PoolSize(x) != b.PoolSize(x) {
+			add("PoolSize(%s) %d vs %d", name(x), a.PoolSize(x), b.PoolSize(x))
+		}
+		if a.Delegator(x) != b.Delegator(x) {
+			add("Delegator(%s) %s vs %s", name(x), name(a.Delegator(x)), name(b.Delegator(x)))
+		}
+		if a.IsPool(x) && b.IsPool(x) {
+			for n := uint32(0); n < 4; n++ {
+				s1, n1 := a.FindSubIdentity(x, n)
+				s2, n2 := b.FindSubIdentity(x, n)
+				if s1 != s2 || n1 != n2 {
+					add("FindSubIdentity(%s,%d) %s,%d vs %s,%d", name(x), n, name(s1), n1, name(s2), n2)
+				}
+			}
+		}
+	}
+	for i, seed := range seeds {
+		for _, step := range []uint8{1, 2, types.Final} {
+			for _, limit := range []int{1, 2, a.ValidatorsSize(), a.ValidatorsSize() - 1} {
+				if limit < 1 {
+					continue
+				}
+				x, y := a.GetOnlineValidators(seed, uint64(10+i), step, limit), b.GetOnlineValidators(seed, uint64(10+i), step, limit)
+				if (x == nil) != (y == nil) {
+					add("GetOnlineValidators(seed%d,step %d,limit %d) nil-ness differs", i, step, limit)
+					continue
+				}
+				if x != nil && (!x.Original.Equal(y.Original) || !x.Validators.Equal(y.Validators) || !x.ApprovedValidators.Equal(y.ApprovedValidators)) {
+					add("GetOnlineValidators(seed%d,step %d,limit %d) differ: %v/%v/%v vs %v/%v/%v", i, step, limit, x.Original, x.Validators, x.ApprovedValidators, y.Original, y.Validators, y.ApprovedValidators)
+				}
+				if x != nil && a.OnlineSize() > 0 {
+					if x.Original.Cardinality() != limit {
+						add("committee size %d, limit %d", x.Original.Cardinality(), limit)
+					}
+					if x.VotesCountSubtrahend(0.65) != y.VotesCountSubtrahend(0.65) {
+						add("VotesCountSubtrahend differs")
+					}
+				}
+			}
 		}
 	}
 	return out
